@@ -86,6 +86,8 @@ class ExprMixin:
             return self.empty_of(ty)
         if v.ty == TInt and ty == TReal:
             return Val(TReal, z3.ToReal(v.t))
+        if ty.key in self.coercions and v.ty.key in self.coercions[ty.key]:
+            return self.coercions[ty.key][v.ty.key](self, v)  # a registered injection takes precedence (an Optional source is injected whole, not unwrapped)
         if isinstance(ty, TOpt):
             if v.ty == TNone:
                 return Val(ty, o_none(ty))
@@ -126,6 +128,8 @@ class ExprMixin:
                     r = (self.coerce(x, oty), self.coerce(y, oty))
                 elif isinstance(y.ty, TOpt) and not isinstance(x.ty, TOpt):
                     r = (self.coerce(x, y.ty, node), y)
+                elif y.ty.key in self.coercions and x.ty.key in self.coercions[y.ty.key]:
+                    r = (self.coercions[y.ty.key][x.ty.key](self, x), y)  # registered injection into the other side's sort
                 else:
                     continue
             except Unsupported:
